@@ -303,11 +303,19 @@ def p_chain(I, n, pos, kw):
     """the items of the given lists one after the other (lists of known length only)"""
     tgt = I.log[-1]["target"]
     parts = pos[0].items if tgt.endswith("from_iterable") and pos and isinstance(pos[0], Seq) else (pos if not tgt.endswith("from_iterable") else None)
-    if parts is None or not all(isinstance(x, Seq) for x in parts):
+    if parts is None:
         return I.unknown("prim:" + tgt, n)
     out = []
     for x in parts:
-        out.extend(x.items)
+        if isinstance(x, Seq):
+            out.extend(x.items)
+            continue
+        items = _concrete_items(I, x, n)
+        if items is None and isinstance(x, Arr) and x.axes[0][0].concrete is not None:
+            items = [arrays.index(x, [("int", k)]) for k in range(x.axes[0][0].concrete)]
+        if items is None:
+            return I.unknown("prim:" + tgt, n)
+        out.extend(items)
     return Seq(out, "list")
 
 
@@ -473,20 +481,34 @@ def p_dict(I, n, pos, kw):
             dv.key_kind = "other"
             I.event("dict-from-zip", n, keys=ks, values=vs)
             return dv
+    pairs = _concrete_items(I, v, n)
+    if pairs is not None and all(isinstance(x, Seq) and len(x.items) == 2 for x in pairs):
+        d = {}
+        for x in pairs:
+            k_, v_ = x.items
+            if isinstance(k_, StrV) and k_.s not in ("<formatted>", "<f-string>"):
+                d[k_.s] = v_
+            elif isinstance(k_, Sc) and k_.e is not None and k_.e[0] == "num":
+                d[k_.e[1]] = v_
+            else:
+                return I.unknown("prim:builtins.dict", n)
+        d.update({k: v for k, v in kw.items()})
+        return DictV(d)
     return I.unknown("prim:builtins.dict", n)
 
 
 @prim("builtins.list", "builtins.tuple")
 def p_list(I, n, pos, kw):
+    as_list = I.log[-1].get("target", "builtins.list").endswith("list")
     if not pos:
-        return Seq([], "list")
+        return Seq([], "list" if as_list else "tuple")
     v = pos[0]
     if isinstance(v, Seq):
         return Seq(list(v.items), "list")
     if isinstance(v, ObjV) and v.tag == "lazy-map":
         items = _realise_map(I, v, n)
         if items is not None:
-            return Seq(items, "list" if I.log[-1]["target"].endswith("list") else "tuple")
+            return Seq(items, "list" if as_list else "tuple")
     if isinstance(v, ObjV) and v.tag in ("zip", "enumerate", "range", "lazy-map"):
         sp, iv, elem = I.iteration(v, n)
         if sp is None:
@@ -1756,8 +1778,17 @@ def p_map(I, n, pos, kw):
 
 @prim("operator.itemgetter")
 def p_itemgetter(I, n, pos, kw):
-    k = _num(pos[0])
-    return ObjV(None, dict(k=int(k) if k is not None else None), tag="itemgetter")
+    k = _num(pos[0]) if len(pos) == 1 else None
+    keys = []
+    for x in pos:
+        if isinstance(x, StrV):
+            keys.append(("str", x.s, None))
+        elif _num(x) is not None:
+            keys.append(("int", int(_num(x))))
+        else:
+            keys = None
+            break
+    return ObjV(None, dict(k=int(k) if k is not None else None, keys=keys), tag="itemgetter")
 
 
 @prim("operator.attrgetter")
@@ -2010,6 +2041,31 @@ def m_format(I, n, recv, pos, kw):
     if isinstance(recv, StrV) and recv.s == "{}" and len(pos) == 1 and not kw and isinstance(pos[0], Sc) and pos[0].e is not None:
         return StrV("<formatted>", arg=pos[0].e)
     return StrV("<formatted>")
+
+
+def _dict_key_val(k):
+    return StrV(k) if isinstance(k, str) and not k.startswith("$") else (Sc(sym.Bool(k == "$True")) if isinstance(k, str) else Sc(sym.Num(k)))
+
+
+@method("items")
+def m_items(I, n, recv, pos, kw):
+    if isinstance(recv, DictV) and recv.generic is None:
+        return Seq([Seq([_dict_key_val(k), v], "tuple") for k, v in recv.d.items()], "list")
+    return I.unknown("method:items", n)
+
+
+@method("keys")
+def m_keys(I, n, recv, pos, kw):
+    if isinstance(recv, DictV) and recv.generic is None:
+        return Seq([_dict_key_val(k) for k in recv.d], "list")
+    return I.unknown("method:keys", n)
+
+
+@method("values")
+def m_values(I, n, recv, pos, kw):
+    if isinstance(recv, DictV) and recv.generic is None:
+        return Seq(list(recv.d.values()), "list")
+    return I.unknown("method:values", n)
 
 
 @method("get")
